@@ -707,3 +707,11 @@ func parseCrash(s string) (msg, top, stack string) {
 	}
 	return msg, top, strings.Join(keep, "\n")
 }
+
+// Tier returns the tier of this run ("quick" unless VERIF_TIER=thorough).
+func Tier() string {
+	if os.Getenv("VERIF_TIER") == "thorough" {
+		return "thorough"
+	}
+	return "quick"
+}
